@@ -154,12 +154,12 @@ def cvc5_check(smt, timeout_ms):
                            preexec_fn=budget.limit_cpu(budget.cpu_s(timeout_ms, "cvc5")))
         out = p.stdout.strip().splitlines()
         res = out[0] if out else "error"
-        if res not in ("sat", "unsat") and (time.time() - t0) * 1000 >= wall * 0.95 and budget.stopped_by_wall_clock(cpu0, timeout_ms, "cvc5"):
+        if res not in ("sat", "unsat") and (time.time() - t0) * 1000 >= wall * 0.95 and budget.stopped_by_wall_clock(cpu0, timeout_ms, "cvc5", t0):
             budget.wall_hit("cvc5")
         budget.log("cvc5", res, 0, time.time() - t0, budget.rl(timeout_ms, "cvc5"))
         return res, time.time() - t0
     except subprocess.TimeoutExpired:
-        if budget.stopped_by_wall_clock(cpu0, timeout_ms, "cvc5"):
+        if budget.stopped_by_wall_clock(cpu0, timeout_ms, "cvc5", t0):
             budget.wall_hit("cvc5")
         return "error", time.time() - t0
     except Exception as e:  # noqa
@@ -224,6 +224,19 @@ def make_args(ex, key, spec):
                 continue
             if p in spec.arg_types:
                 args[p] = spec.arg_types[p] if not isinstance(spec.arg_types[p], Ty) else fresh(spec.arg_types[p], p)
+                continue
+            if getattr(spec, "mutable_self", None):
+                from .exec import PyRecord, AbsIter
+                flds = {}
+                for fname, ft in spec.mutable_self.items():
+                    if isinstance(ft, tuple) and ft[0] == "iterator":
+                        flds[fname] = AbsIter(fresh(ft[1], f"{p}_{fname}_rows"), fresh(IntT, f"{p}_{fname}_pos"))
+                    else:
+                        flds[fname] = fresh(ft, f"{p}_{fname}")
+                rec = PyRecord(cls, flds)
+                rec.mutable = True
+                rec.ftypes = {k: v for k, v in spec.mutable_self.items() if isinstance(v, Ty)}
+                args[p] = rec
                 continue
             ct = ex.world.class_ty(cls)
             if isinstance(ct, ClassTy) and ct.root:
@@ -353,6 +366,15 @@ def verify_function(ex, key, timeout_ms=10000, extra_pre=(), only=None):
         for i, out in enumerate(outs):
             if out.kind == "raise":
                 rep.raise_paths += 1
+                selfname = next(iter(args), None)
+                for c in getattr(spec, "raise_post", []):
+                    goal = c.fn(a, out.val.exc.cls, Sym(ExcT, out.val.exc.e), (out.env or {}).get(selfname))
+                    if isinstance(goal, bool) and goal:
+                        rep.results.append(ObResult(f"{key}.{c.name}.path{i}@{out.val.where}", "ensures", "proved", "trivial", 0.0, c.props))
+                        continue
+                    status, be, secs, mt, m = solve_ob(list(out.st.hyps) + links, z3_bool(goal), axioms, timeout_ms)
+                    rep.results.append(ObResult(f"{key}.{c.name}.path{i}@{out.val.where}", "ensures", status, be, secs, c.props, model=mt,
+                                                detail=f"on the path raising {out.val.exc!r} at line {out.val.where}", meta={"path": i}))
                 if not spec.may_raise:
                     oid = f"{key}.no_raise.path{i}@{out.val.where}"
                     status, be, secs, mt, m = solve_ob(out.st.hyps, z3.BoolVal(False), axioms, timeout_ms)
@@ -400,6 +422,14 @@ def verify_function(ex, key, timeout_ms=10000, extra_pre=(), only=None):
                 status, be, secs, mt, m = solve_ob(hy, z3_bool(goal), axioms, timeout_ms)
                 rep.results.append(ObResult(f"{key}.{c.name}.path{i}", "ensures", status, be, secs, c.props, model=mt,
                                             meta={"z3model": m, "args": args, "result": res, "path": i}))
+            selfname = next(iter(args), None)
+            for c in getattr(spec, "state_post", []):
+                goal = c.fn(a, res, (out.env or {}).get(selfname))
+                if isinstance(goal, bool) and goal:
+                    rep.results.append(ObResult(f"{key}.{c.name}.path{i}", "ensures", "proved", "trivial", 0.0, c.props))
+                    continue
+                status, be, secs, mt, m = solve_ob(list(out.st.hyps) + links + lem, z3_bool(goal), axioms, timeout_ms)
+                rep.results.append(ObResult(f"{key}.{c.name}.path{i}", "ensures", status, be, secs, c.props, model=mt, meta={"path": i}))
             if len(rep.path_samples) < 3:
                 rep.path_samples.append({"path": i, "pc": [str(z3.simplify(p))[:200] for p in out.st.pc[:8]],
                                          "result": repr(res)[:300], "reports": [repr(r) for r in out.st.reports]})
